@@ -37,6 +37,8 @@ struct Profile {
   unsigned ops_per_size = 1;
   bool big_strings = false;
   bool force_compression = false;
+  unsigned w_retune = 0;          // change the active set's tick rate through get_active_block_parameters_ref() + rotate_output(export=true)
+  bool ext_generic_only = false;  // application-built blocks use the generic add_* overloads only (hints apply)
   bool enum_mode = false;         // exhaustive small-scope enumeration (C12): fixed tiny alphabet, no other choices
 };
 
@@ -48,6 +50,7 @@ struct OutM {
   std::string part;      // .part path for named outputs
   std::vector<M::BlockM> blocks;
   size_t nsets_header = 0;
+  std::vector<M::BlockP> sets_header;   // parameter sets as they were when the header of this output was written
   uint64_t ret_sum = 0;
   bool closed_by_destroy = false;
   bool closed = false;
@@ -80,7 +83,7 @@ struct RefExporter {
       b.bp_index = cur_bp; b.has_bp_index = true;
       b.qrs = qrs; b.mms = mms; b.aecs = aecs; b.stats = stats;
       OutM& o = outs.back();
-      if (o.blocks.empty()) o.nsets_header = sets.size();
+      if (o.blocks.empty()) { o.nsets_header = sets.size(); o.sets_header = sets; }
       o.blocks.push_back(b);
       wrote = true;
     }
@@ -132,14 +135,28 @@ static std::string describe_sets(const std::vector<M::BlockP>& sets) {
 }
 
 // Builds an external block through the public CdnsBlock API; returns its model.
-static M::BlockM build_external(Chooser& c, CDNS::CdnsBlock& blk, const M::BlockP& bp, uint64_t idx, const gen::Pools& pools, const gen::TimeCtx& tc,
-                                const gen::RecOpts& ro, bool empty_structs, Stats& st) {
+// The block lives in `holder`; half-way through it may be relocated (copy / move construction or assignment), as an
+// application that keeps blocks in containers would do: a block must keep behaving like the block it was (C19, C04).
+static M::BlockM build_external(Chooser& c, std::unique_ptr<CDNS::CdnsBlock>& holder, const M::BlockP& bp, uint64_t idx, const gen::Pools& pools, const gen::TimeCtx& tc,
+                                const gen::RecOpts& ro, bool empty_structs, bool generic_only, Stats& st) {
   M::BlockM m;
   m.bp_index = idx; m.has_bp_index = true;
   uint64_t tps = (uint64_t)bp.sp.tps;
   unsigned n = (unsigned)c.range(1, 5);
+  unsigned relocate_at = c.range(0, 2) == 0 ? (unsigned)c.range(0, n - 1) : n + 1;
   for (unsigned i = 0; i < n; i++) {
-    uint64_t k = c.range(0, 4);
+    if (i == relocate_at) {
+      uint64_t how = c.range(0, 3);
+      std::unique_ptr<CDNS::CdnsBlock> nb;
+      if (how == 0) nb.reset(new CDNS::CdnsBlock(*holder));
+      else if (how == 1) nb.reset(new CDNS::CdnsBlock(std::move(*holder)));
+      else if (how == 2) { nb.reset(new CDNS::CdnsBlock()); *nb = *holder; }
+      else { nb.reset(new CDNS::CdnsBlock()); *nb = std::move(*holder); }
+      holder = std::move(nb);   // the original is destroyed
+      st.cls(how == 0 ? "ext:relocated_copy_ctor" : how == 1 ? "ext:relocated_move_ctor" : how == 2 ? "ext:relocated_copy_assign" : "ext:relocated_move_assign");
+    }
+    CDNS::CdnsBlock& blk = *holder;
+    uint64_t k = generic_only ? c.pick<uint64_t>({0, 0, 2, 3}) : c.range(0, 4);
     if (k == 0) {   // generic Q/R (hints of the block apply)
       Fields f = gen::gen_qr(c, pools, tc, tps, ro);
       M::StatsM s = gen::gen_stats(c, empty_structs);
@@ -327,7 +344,7 @@ static void hist_case(Case& cs, const Profile& pf) {
 
   // ---- the history
   for (unsigned step = 0; step < nops; step++) {
-    unsigned W[] = {pf.w_qr, pf.w_aec, pf.w_mm, pf.w_write, pf.w_ext, pf.w_rotate, pf.w_addbp, pf.w_setactive, pf.w_counters};
+    unsigned W[] = {pf.w_qr, pf.w_aec, pf.w_mm, pf.w_write, pf.w_ext, pf.w_rotate, pf.w_addbp, pf.w_setactive, pf.w_counters, pf.w_retune};
     unsigned tot = 0; for (unsigned w : W) tot += w;
     int op = 0;
     int esym = -1;   // enumeration alphabet: 0 qr storable, 1 qr unstorable, 2 aec key 1, 3 aec key 2, 4 mm, 5 write_block, 6 set_active(other), 7 counters
@@ -406,13 +423,16 @@ static void hist_case(Case& cs, const Profile& pf) {
         size_t limit = o.blocks.empty() ? ref.sets.size() : o.nsets_header;  // precondition 2: the index must exist in this output's preamble
         uint64_t idx = c.range(0, limit - 1);
         CDNS::BlockParameters lbp = adapt::lib_bp(ref.sets[idx]);
-        CDNS::CdnsBlock blk(lbp, (CDNS::index_t)idx);
-        M::BlockM mb = build_external(c, blk, ref.sets[idx], idx, pools, tc, ro, pf.empty_structs, cs.st);
+        std::unique_ptr<CDNS::CdnsBlock> holder(new CDNS::CdnsBlock(lbp, (CDNS::index_t)idx));
+        bool generic_only = pf.ext_generic_only || c.coin();
+        M::BlockM mb = build_external(c, holder, ref.sets[idx], idx, pools, tc, ro, pf.empty_structs, generic_only, cs.st);
+        CDNS::CdnsBlock& blk = *holder;
+        mb.begin = 1;   // model side marker: built by the application
+        mb.external = !generic_only;   // hint oracles apply to blocks filled through the generic overloads only
         trace << "write_block(external bp=" << idx << " qr=" << mb.qrs.size() << " aec=" << mb.aecs.size() << " mm=" << mb.mms.size() << ")";
         size_t ret = ex->write_block(blk);
         bool wrote = mb.qrs.size() + mb.aecs.size() + mb.mms.size() > 0;
-        mb.external = true;
-        if (wrote) { if (o.blocks.empty()) o.nsets_header = ref.sets.size(); o.blocks.push_back(mb); had_ext = true; }
+        if (wrote) { if (o.blocks.empty()) { o.nsets_header = ref.sets.size(); o.sets_header = ref.sets; } o.blocks.push_back(mb); had_ext = true; }
         o.ret_sum += ret;
         if ((ret != 0) != wrote) cx.fail(O_C12, "c12.flush_return", "write_block(external) returned " + std::to_string(ret) + " but the block has " + std::to_string(mb.qrs.size() + mb.aecs.size() + mb.mms.size()) + " items\n" + trace.str());
         trace << " -> " << ret << "\n";
@@ -464,6 +484,34 @@ static void hist_case(Case& cs, const Profile& pf) {
         if (ok != !bad) cx.fail(O_C12, "c12.set_active_result", "set_active_block_parameters(" + std::to_string(idx) + ") returned " + std::to_string(ok) + " with " + std::to_string(ref.sets.size()) + " sets");
         if (!bad) { if (idx != ref.active) pending_switch = true; ref.active = idx; }
         check_counters("set_active_block_parameters");
+        break;
+      }
+      case 9: {  // retune: another tick rate for the active set, effective from the next output on
+        // valid use: mutate through the reference, then rotate with export, so that the buffered block (old rate) still goes to
+        // the old output; only when the buffered block uses the active set (otherwise nothing re-arms it) - generator duty
+        if (ref.cur_bp != ref.active) { cs.st.cnt("excluded:retune_with_pending_switch"); break; }
+        // ... and only when the header of the current output is already written (it states the old rate of the buffered block)
+        if (ref.outs.back().blocks.empty()) { cs.st.cnt("excluded:retune_before_first_block"); break; }
+        uint64_t ntps = c.pick<uint64_t>({1000ull, 1000000ull, 1000000000ull, 1ull, 7ull});
+        ex->get_active_block_parameters_ref().storage_parameters.ticks_per_second = ntps;
+        OutM& old = ref.outs.back();
+        OutM nw;
+        std::string base = new_out(nw);
+        trace << "retune(set " << ref.active << " tps=" << ntps << ") + rotate_output(export=1)";
+        size_t ret;
+        if (kind == 0) ret = ex->rotate_output(base, true); else ret = ex->rotate_output(open_fd(base), true);
+        bool wrote = ref.write_block();       // buffered block goes to the old output under the old rate
+        ref.sets[ref.active].sp.tps = ntps;   // later headers state the new rate
+        pending_switch = false;
+        old.ret_sum += ret;
+        bool expect_nonzero = wrote || !old.blocks.empty();
+        if ((ret != 0) != expect_nonzero) cx.fail(O_C12, "c12.flush_return", "rotate_output after retune returned " + std::to_string(ret) + "\n" + trace.str());
+        trace << " -> " << ret << "\n";
+        rot_now = true;
+        ref.outs.push_back(nw);
+        snapshot_closed(ref.outs[ref.outs.size() - 2]);
+        cs.st.cls("retuned_tick_rate");
+        check_counters("retune+rotate");
         break;
       }
       default: check_counters("query"); break;
@@ -525,7 +573,7 @@ static void hist_case(Case& cs, const Profile& pf) {
     }
     // C13 / C09: the preamble of this output holds the sets known when its header was written
     {
-      M::Preamble ep = mpre; ep.bps.assign(ref.sets.begin(), ref.sets.begin() + o.nsets_header);
+      M::Preamble ep = mpre; ep.bps = o.sets_header;
       if (M::dump(ep) != M::dump(got.pre)) cx.fail(O_C01 | O_C13 | O_C04, "c01.preamble", where + ": preamble differs\n expected " + M::dump(ep) + " got      " + M::dump(got.pre) + trace.str());
     }
     // C01 (independent reader)
@@ -567,8 +615,9 @@ static void hist_case(Case& cs, const Profile& pf) {
       if (gb.end - gb.begin > 2048) had_big_block = true;
       // C12: size rule (blocks the exporter filled itself): none empty, no array above its maximum
       bool external = bi < o.blocks.size() && o.blocks[bi].external;
+      bool app_built = bi < o.blocks.size() && o.blocks[bi].begin == 1;
       if (gb.qrs.size() + gb.aec_entries + gb.mms.size() == 0) cx.fail(O_C12 | O_C02, "c12.empty_block", bw + " has no item\n" + trace.str());
-      if (!external && gb.bp_index < got.pre.bps.size()) {
+      if (!external && !app_built && gb.bp_index < got.pre.bps.size()) {
         uint64_t mx = (uint64_t)got.pre.bps[gb.bp_index].sp.max_items; if (mx == 0) mx = 1;
         if (gb.qrs.size() > mx || gb.aec_entries > mx || gb.mms.size() > mx)
           cx.fail(O_C12, "c12.block_above_maximum", bw + " holds " + std::to_string(gb.qrs.size()) + "/" + std::to_string(gb.aec_entries) + "/" + std::to_string(gb.mms.size()) + " items, maximum is " + std::to_string(mx) + "\n" + trace.str());
@@ -663,14 +712,14 @@ static Profile P_C01() { Profile p; p.name = "c01"; p.oracles = O_C01; p.w_setac
 static Profile P_C01BIG() { Profile p = P_C01(); p.name = "c01big"; p.big_strings = true; p.ops_per_size = 3; return p; }
 static Profile P_C01HUGE() { Profile p = P_C01(); p.name = "c01huge"; p.big_strings = true; p.ops_per_size = 12; p.w_qr = 20; p.w_write = 1; p.pres_fixed = 6; return p; }
 static Profile P_C02() { Profile p; p.name = "c02"; p.oracles = O_C02; p.w_ext = 3; p.w_rotate = 2; p.w_addbp = 1; p.w_setactive = 2; return p; }
-static Profile P_C04() { Profile p; p.name = "c04"; p.oracles = O_C04; p.pres_fixed = 7; p.w_write = 1; p.max_sets = 3; p.w_setactive = 2; p.any_tps = false; p.empty_structs = false; return p; }
+static Profile P_C04() { Profile p; p.name = "c04"; p.oracles = O_C04; p.pres_fixed = 7; p.w_write = 1; p.w_ext = 2; p.ext_generic_only = true; p.max_sets = 3; p.w_setactive = 2; p.any_tps = false; p.empty_structs = false; return p; }
 static Profile P_C10() { Profile p = P_C02(); p.name = "c10"; p.oracles = O_C10; p.big_strings = true; return p; }
 static Profile P_C11() { Profile p; p.name = "c11"; p.oracles = O_C11; p.small_blocks = true; p.hint_modes = false; p.w_write = 1; p.ops_per_size = 2; return p; }
 static Profile P_C12() { Profile p; p.name = "c12"; p.oracles = O_C12; p.small_blocks = true; p.min_sets = 2; p.w_setactive = 3; p.w_counters = 2; p.w_aec = 6; p.w_mm = 5; p.w_write = 2; p.ops_per_size = 2; p.any_tps = false; return p; }
 static Profile P_C12E() { Profile p = P_C12(); p.name = "c12enum"; p.enum_mode = true; return p; }
-static Profile P_C13() { Profile p; p.name = "c13"; p.oracles = O_C13; p.w_rotate = 5; p.w_addbp = 2; p.w_setactive = 2; p.w_ext = 1; p.small_blocks = true; return p; }
+static Profile P_C13() { Profile p; p.name = "c13"; p.oracles = O_C13; p.w_retune = 1; p.w_rotate = 5; p.w_addbp = 2; p.w_setactive = 2; p.w_ext = 1; p.small_blocks = true; return p; }
 static Profile P_C14() { Profile p = P_C02(); p.name = "c14"; p.oracles = O_C14 | O_C01 | O_C02 | O_C10; p.big_strings = true; p.force_compression = true; p.w_rotate = 3; return p; }
-static Profile P_C17() { Profile p; p.name = "c17"; p.oracles = O_C17 | O_C01; p.hint_modes = false; p.w_mm = 6; p.w_aec = 1; p.pres_fixed = 5; return p; }
+static Profile P_C17() { Profile p; p.name = "c17"; p.oracles = O_C17 | O_C01; p.w_retune = 2; p.w_rotate = 1; p.hint_modes = false; p.w_mm = 6; p.w_aec = 1; p.pres_fixed = 5; return p; }
 
 int main(int argc, char** argv) {
   Registry r;
